@@ -47,6 +47,10 @@ def _role_ok(role, detail, read) -> Optional[str]:
         if read.fn.key == "context.py::PreProcessors.has_macro_defined" and detail == "name":
             return None
         return f"compared with the variable {detail}"
+    if role == "IDCOMPARE":
+        # compared with the recorded identifier spellings (or: a recorded spelling compared with another value)
+        return None if any(str(detail).endswith(s) for s in ALLOWED_STORES) or getattr(read, "is_store", False) \
+            else f"membership test against {detail}"
     if role == "RETURNED":
         return None
     return f"{role}({detail})"
@@ -68,6 +72,8 @@ def _lexer_keywords() -> Set[str]:
 
 
 class _StoreRead:
+    is_store = True
+
     def __init__(self, fn, node, key):
         self.fn, self.node, self.key = fn, node, key
 
